@@ -67,7 +67,7 @@ theorem constTerm_total : (e : Expr) → ∀ (d : ℕ), degree e = some d → ex
   | .l2 _, _, _, _ => ⟨0, by simp [constTerm]⟩
   | .l1 _, _, _, _ => ⟨0, by simp [constTerm]⟩
   | .quad _ _, _, _, _ => ⟨0, by simp [constTerm]⟩
-  | .powSum _ _, _, _, _ => ⟨_, by simp only [constTerm]⟩
+  | .powSum vv q, _, _, _ => ⟨if q == 0 then (vv.vars.length : Rat) else 0, by simp only [constTerm]⟩
   | .unSum _ _, _, _, _ => ⟨0, by simp [constTerm]⟩
   | .matSumV _, _, _, _ => ⟨0, by simp [constTerm]⟩
   | .matSumE _, _, _, _ => ⟨0, by simp [constTerm]⟩
@@ -165,7 +165,7 @@ theorem walk_total : (e : Expr) → ∀ (d : ℕ) (V : List String) (r : List Ra
   | .l2 _, _, _, r, _, _, _ => ⟨r, by simp [walk]⟩
   | .l1 _, _, _, r, _, _, _ => ⟨r, by simp [walk]⟩
   | .quad _ _, _, _, r, _, _, _ => ⟨r, by simp [walk]⟩
-  | .powSum _ _, _, _, _, _, _, _ => ⟨_, by simp only [walk]⟩
+  | .powSum vv q, _, V, r, m, _, _ => ⟨if q == 1 then walkVars V vv.vars r m else r, by simp only [walk]⟩
   | .unSum _ _, _, _, r, _, _, _ => ⟨r, by simp [walk]⟩
   | .matSumV _, _, _, r, _, _, _ => ⟨r, by simp [walk]⟩
   | .matSumE _, _, _, r, _, _, _ => ⟨r, by simp [walk]⟩
